@@ -132,7 +132,7 @@ PROBE_APP = {"op": "check", "c": "probe", "b": "b1", "f": "f1", "kind": "app", "
 # result handling
 
 
-def judge(prop, W, verdicts, scen_index, design_ok=True, extra_cov=None, level="model_checking", assumptions=(), traces=0, samples=None):
+def judge(prop, W, verdicts, scen_index, design_ok=True, extra_cov=None, level="model_checking", assumptions=(), traces=0, samples=None, trace_file=None):
     """verdicts: list of AuthMonitor outputs. Decide, print, write evidence."""
     known = vlib.load_known()
     kn = {(k["property"], k["monitor"], k["cause"]): k for k in known.get("known", [])}
@@ -154,7 +154,7 @@ def judge(prop, W, verdicts, scen_index, design_ok=True, extra_cov=None, level="
             continue
         nviol += 1
         rc = 1
-        rd = save_replay(prop, W, recs[0], scen_index)
+        rd = save_replay(prop, W, recs[0], scen_index, trace_file)
         log("VIOLATION property=%s replay=%s" % (prop, rd))
         log("  monitor=%s cause=%s scenarios=%d first=%s check#%s" % (key[1], key[2], len({r["sc"] for r in recs}), recs[0]["sc"], recs[0]["n"]))
     if others:
@@ -180,7 +180,7 @@ def judge(prop, W, verdicts, scen_index, design_ok=True, extra_cov=None, level="
     return rc
 
 
-def save_replay(prop, W, rec, scen_index):
+def save_replay(prop, W, rec, scen_index, trace_file=None):
     rd = os.path.join(VERIF, "run", "replay", "%s-%s" % (prop, str(rec["sc"]).replace("/", "_")))
     shutil.rmtree(rd, ignore_errors=True)
     os.makedirs(rd, exist_ok=True)
@@ -190,6 +190,15 @@ def save_replay(prop, W, rec, scen_index):
             fh.write(json.dumps(sc) + "\n")
     with open(os.path.join(rd, "violation.json"), "w") as fh:
         json.dump(rec, fh, indent=1)
+    if trace_file and os.path.exists(trace_file):
+        # the events the real code produced in that scenario (what the monitor judged)
+        keep = False
+        with open(trace_file) as src, open(os.path.join(rd, "events.ndjson"), "w") as dst:
+            for line in src:
+                if '"ev":"reset"' in line.replace(" ", ""):
+                    keep = json.loads(line).get("scenario") == rec["sc"]
+                if keep:
+                    dst.write(line)
     return rd
 
 
@@ -229,7 +238,7 @@ def sys_pipeline(prop, W, scenarios, design_checks, assumptions, level="model_ch
     if v["fired"].get("scenarios", 0) != len(scenarios):
         raise Infra("monitor saw %s scenarios, driver ran %d" % (v["fired"].get("scenarios"), len(scenarios)))
     samples = [{"scenario": scenarios[0], "recorded_events": sample_events(trace)}]
-    return judge(prop, W, [v], index, level=level, assumptions=assumptions, traces=len(scenarios), samples=samples, extra_cov=extra_cov)
+    return judge(prop, W, [v], index, level=level, assumptions=assumptions, traces=len(scenarios), samples=samples, extra_cov=extra_cov, trace_file=trace)
 
 
 def sample(W, items, n):
